@@ -42,6 +42,13 @@ def search(tier, seed):
             continue
         if v == "OK" and in_code == "1" and "code=None" in impl and ("x" in impl and numeral.encode().hex() in impl):
             continue
+        # a literal inside the unparsed code ends the fallback text at the literal's CRLF (the C08 known finding): the
+        # numeral then lies behind the consumed bytes and was never read as a number -- nothing was converted
+        if v == "OK" and in_code == "1" and "code=None" in impl:
+            consumed = int(impl.split(" ")[1])
+            pos = bytes.fromhex(h).find(numeral.encode())
+            if pos >= consumed:
+                continue
         return total, "a numeral beyond the %s-bit range of its field was not rejected:\ninput %s\nnumeral %s (inside a response code: %s)\nresult %s" % (
             bits, C.show_input(h), numeral, in_code, impl[:400]), samples, len(seen)
     samples.append("numeric: %s -> %s" % (C.show_input(rows[0][0], 80), rows[0][1][:60]))
